@@ -4,6 +4,8 @@ CONSTANTS
   MaxNlv = 2
   ResidualIndex = "mod_ny"
 INVARIANT InvShape
+INVARIANT InvWide
+INVARIANT InvTolBase
 INVARIANT InvCols
 INVARIANT InvR2Range
 INVARIANT InvFloor
